@@ -25,8 +25,21 @@ BUILTIN = {'objects': ['malware', 'identity', 'relationship', 'marking-definitio
 INVALID = ['X-upper', 'x-Upper', 'x_under', 'x-é', '   ', 'ab', 'x', 'a' * 251, 'x-sim a', 'x.sim', '']
 EITHER = ['9-lead', '-lead', 'x--double', 'trail-']          # rules I could not confirm offline: either outcome accepted
 
-PROPSETS = ['legal', 'legal2', 'legal_ref', 'bad_digit', 'bad_upper_first', 'bad_hyphen', 'bad_short', 'bad_upper_inside',
-            'ref_nonref', 'refs_nonref', 'empty']
+PROPSETS = ['legal', 'legal2', 'legal_ref', 'legal_names', 'bad_digit', 'bad_upper_first', 'bad_hyphen', 'bad_short', 'bad_upper_inside',
+            'bad_space', 'bad_dot', 'bad_long', 'bad_nonascii', 'ref_nonref', 'refs_nonref', 'empty']
+# rule-breaking 2.1 property names, with prefixes that are themselves legal names (id, type, name, created ...)
+BAD_NAMES = {
+    'bad_digit': ['7count', '9id', '0_x'],
+    'bad_upper_first': ['Count', 'Id_tag', 'Name'],
+    'bad_hyphen': ['my-count', 'id-tag', 'type-x', 'a-b-c'],
+    'bad_short': ['ab', 'x1', 'i'],
+    'bad_upper_inside': ['myCount', 'idX', 'identityName', 'typeX', 'nameS'],
+    'bad_space': ['id tag', 'my count', 'name '],
+    'bad_dot': ['id.value', 'a.b.c', 'created.at'],
+    'bad_long': ['a' * 251, 'id' + 'x' * 249],
+    'bad_nonascii': ['naïve_prop', 'idé', 'créated'],
+}
+LEGAL_NAMES = ['id_tag', 'ide', 'idx', 'type_x', 'a_1', 'x' * 250, 'name2', 'created_at', 'abc']
 
 
 def name_class(name, kind, ver):
@@ -148,16 +161,15 @@ class C19(Profile):
             if kind == 'observable' and ver == '2.0':
                 return base + [('thing_ref', ObjectReferenceProperty(valid_types='file'))], 'legal'
             return base + [('thing_ref', ReferenceProperty(valid_types='identity', spec_version=ver))], 'legal'
-        if ps == 'bad_digit':
-            return base + [('7count', IntegerProperty())], 'bad21-prefix'
-        if ps == 'bad_upper_first':
-            return base + [('Count', IntegerProperty())], 'bad21-prefix'
-        if ps == 'bad_hyphen':
-            return base + [('my-count', IntegerProperty())], 'bad21-charset'
-        if ps == 'bad_short':
-            return base + [('ab', IntegerProperty())], 'bad21-length'
-        if ps == 'bad_upper_inside':
-            return base + [('myCount', IntegerProperty())], 'bad21-charset'
+        if ps == 'legal_names':
+            return base + [(LEGAL_NAMES[op['a'] % len(LEGAL_NAMES)], IntegerProperty())], 'legal'
+        if ps in BAD_NAMES:
+            name = BAD_NAMES[ps][op['a'] % len(BAD_NAMES[ps])]
+            cls_ = {'bad_digit': 'bad21-prefix', 'bad_upper_first': 'bad21-prefix', 'bad_short': 'bad21-length',
+                    'bad_long': 'bad21-length'}.get(ps, 'bad21-charset')
+            if ps == 'bad_nonascii' and not name[0].isascii():
+                cls_ = 'bad21-prefix'
+            return base + [(name, IntegerProperty())], cls_
         if ps == 'ref_nonref':
             return base + [('thing_ref', StringProperty())], 'ref-nonref'
         if ps == 'refs_nonref':
